@@ -50,7 +50,9 @@ include names and the path buffer fq_path[PATHBUF]      `resolved_path_fits`, `l
                                                          explicit name of ≥ PATHBUF bytes IS its first PATHBUF-1 bytes),
                                                          `explicit_name_as_written_or_error` (with the patch),
                                                          `bare_name_too_long_is_error`
-(resources) no descriptor leaks                          `descriptors_balanced`, `open_files_le_depth`, `open_files_le_files`
+(resources) no descriptor leaks                          `descriptors_balanced`, `open_files_le_depth`, `open_files_le_files`,
+                                                         `top_streams_closed` (THE CODE since /repo 8d15944: `read_wcoll`
+                                                         closes what it opened; `top_streams_leak_witness` = before)
 end to end (C10 ∘ C02 ∘ C01)                             `target_list_end_to_end` (+ `_is_cliWords`, `_is_cliFinalW`)
 
 The reader comes in three forms (`LineMode`): `.fgets n` (as found: every fgets piece parsed on its own),
